@@ -504,7 +504,8 @@ type flatNode struct {
 func kindHier3(c *hlib.Ctx) {
 	var m *model3d.Mesh
 	var label string
-	switch c.Rng.Intn(8) {
+	var polyRoots []*pnode
+	switch c.Rng.Intn(10) {
 	case 0:
 		m, label = closed3(c)
 	case 1:
@@ -513,13 +514,25 @@ func kindHier3(c *hlib.Ctx) {
 		s := soupOfMesh(c, mm)
 		s.faces = s.faces[1:]
 		m, label = s.build().m, "opened"
+	case 2, 3, 4, 5:
+		// non-convex, non-concentric nests (polyomino prisms inside each other's material)
+		polyRoots = polyNest(c)
+		mode := c.Rng.Intn(3)
+		m, label = polyMesh3(c, polyRoots, mode), []string{"poly-direct", "poly-profile", "poly-mixed"}[mode]
 	default:
 		m, label = nested3(c, c.Rng.Intn(2) == 0)
 	}
-	if m.NumTriangles() > 700 {
+	if m.NumTriangles() > 900 {
 		c.Stat("hier3:skipped-large", 1)
 		m, label = closed3simple(c)
+		polyRoots = nil
 	}
+	hier3Case(c, m, label, polyRoots)
+}
+
+// hier3Case runs MeshToHierarchy on m (faces shuffled, whole components re-oriented at random)
+// and prints nodes, parents, FullMesh and Contains on query points.
+func hier3Case(c *hlib.Ctx, m *model3d.Mesh, label string, polyRoots []*pnode) {
 	s := soupOfMesh(c, m)
 	// random orientation of whole components (the hierarchy must not depend on it)
 	if c.Rng.Intn(2) == 0 {
@@ -538,6 +551,12 @@ func kindHier3(c *hlib.Ctx) {
 	nq := 6 + c.Rng.Intn(10)
 	if len(s.faces) == 0 {
 		nq = 0
+	}
+	if polyRoots != nil {
+		for _, q := range polyQueries(c, polyRoots, 10+c.Rng.Intn(10)) {
+			qs = append(qs, model3d.XYZ(q[0], q[1], q[2]))
+		}
+		nq = 4
 	}
 	for i := 0; i < nq; i++ {
 		r := func(lo, hi float64, off float64) float64 {
